@@ -23,8 +23,19 @@ func verifAddrEq(a, b net.IP) bool {
 	return eq
 }
 
+// a template of one of the shapes decoding produces: one or two fields, or one scope field and
+// one field (options template); every specifier is arbitrary
 func verifTemplate(id uint16) TemplateRecord {
-	return TemplateRecord{TemplateID: id, FieldCount: 1, FieldSpecifiers: []TemplateFieldSpecifier{{ElementID: verifNondetU16(), Length: verifNondetU16()}}}
+	spec := func() TemplateFieldSpecifier {
+		return TemplateFieldSpecifier{ElementID: verifNondetU16(), Length: verifNondetU16()}
+	}
+	switch verifCase(3) {
+	case 0:
+		return TemplateRecord{TemplateID: id, FieldCount: 1, FieldSpecifiers: []TemplateFieldSpecifier{spec()}}
+	case 1:
+		return TemplateRecord{TemplateID: id, FieldCount: 2, FieldSpecifiers: []TemplateFieldSpecifier{spec(), spec()}}
+	}
+	return TemplateRecord{TemplateID: id, FieldCount: 2, ScopeFieldCount: 1, ScopeFieldSpecifiers: []TemplateFieldSpecifier{spec()}, FieldSpecifiers: []TemplateFieldSpecifier{spec()}}
 }
 
 func verifSameTemplate(x, y TemplateRecord) bool {
@@ -34,6 +45,9 @@ func verifSameTemplate(x, y TemplateRecord) bool {
 	eq := verifAll(x.TemplateID == y.TemplateID, x.FieldCount == y.FieldCount, x.ScopeFieldCount == y.ScopeFieldCount)
 	for i := range x.FieldSpecifiers {
 		eq = verifAll(eq, x.FieldSpecifiers[i] == y.FieldSpecifiers[i])
+	}
+	for i := range x.ScopeFieldSpecifiers {
+		eq = verifAll(eq, x.ScopeFieldSpecifiers[i] == y.ScopeFieldSpecifiers[i])
 	}
 	return eq
 }
